@@ -67,12 +67,28 @@ def _judge(C, committed_before, v_committed, v_final, files_committed):
         r = C(REC_PATH, "r")
     except OPEN_ERRORS:
         return True
+    mf_problem = None
     try:
         newest = r.ih5_meta[-1]
         v = view(r)
         nfiles = len(r.ih5_files)
+        if C is IH5MFRecord:
+            # a manifest record that opens comes with the manifest of its newest committed container
+            # (also below a recognisably uncommitted patch): the manifest is part of the committed state
+            metas = r.ih5_meta
+            cub = metas[-1] if metas[-1].hdf5_hashsum is not None or len(metas) == 1 else metas[-2]
+            cext = IH5UBExtManifest.get(cub)
+            try:
+                m = r.manifest
+                if cext is not None and m.manifest_uuid != cext.manifest_uuid:
+                    mf_problem = "rec.manifest is not the manifest linked by the newest committed container"
+            except ValueError as e:
+                mf_problem = "manifest of the last commit not available: " + str(e)[:80]
     finally:
         r.close()
+    if mf_problem is not None:
+        note(("complete file set opens, but " + mf_problem,))
+        return False
     if newest.hdf5_hashsum is None:
         # interrupted patch, clearly recognisable as uncommitted. Recovery: reopening writable (explicit file list
         # in reversed order, then by name) and discarding the interrupted patch must not damage what was committed.
